@@ -69,6 +69,10 @@ def facts_path(config="debug", repo=None):
     key = hashlib.sha256((tree_hash(repo) + driver_hash() + CONFIGS[config]).encode()).hexdigest()[:24]
     out = os.path.join(CACHE, "facts-%s-%s.json" % (config, key))
     if os.path.exists(out):
+        try:
+            os.utime(out)  # in use: keeps it out of reach of the eviction below
+        except OSError:
+            pass
         return out
     lock = open(os.path.join(CACHE, "lock-%s" % key), "w")
     fcntl.flock(lock, fcntl.LOCK_EX)
@@ -108,6 +112,8 @@ def facts_path(config="debug", repo=None):
         )
         for f in files[:-12]:
             try:
+                if time.time() - os.path.getmtime(f) < 3600:
+                    continue  # possibly still being read by a check that runs concurrently (worker pools re-open the file)
                 os.remove(f)
             except OSError:
                 pass
